@@ -28,7 +28,7 @@ PID = "C02"
 RULE = (
     "Cells = every catalogued operation (accessors, momentum accessors, unary/scalar-argument/binary methods, all 12 Euler "
     "orders) x operand dimensions x signature (all-Cartesian always; quick: plus 3 deterministic pseudo-random other "
-    "signatures per operation, thorough: all signatures) x tier {mp object, f64 object, f64 NumPy array}. One generated case "
+    "signatures per operation, thorough: all signatures) x tier {mp object, f64 object, f64 NumPy array, f64 Awkward array}. One generated case "
     "is a bundle with one sub-case per stratum (mp: all regular strata; f64: well-conditioned stratum); operands are canonical "
     "Cartesian values expressed in the cell's stored systems by the reference converters. The result is read back as stored "
     "coordinates + coordinate classes, converted with the reference converters and compared with the reference definition. "
@@ -75,8 +75,10 @@ def cells(tier):
                     orders = list(gen.EULER_ORDERS) + (["ZXZ", "yXy"] if tier == "quick" else [o.upper() for o in gen.EULER_ORDERS])
                 for sa, sb in sigs:
                     for order in orders:
-                        for mode in ("mp", "f64", "np"):
+                        for mode in ("mp", "f64", "np", "ak"):
                             if "synonym" in op.tags and mode != "f64" and tier == "quick":
+                                continue
+                            if mode == "ak" and tier == "quick" and (sa, sb) != sigs[0] and (sa, sb) != sigs[-1]:
                                 continue
                             cid = f"{op.name}|{da}{R.sysname(sa)}|{db or ''}{R.sysname(sb) if sb else ''}|{order or ''}|{mode}"
                             out.append({"id": cid, "op": op.name, "da": da, "db": db, "sa": R.sysname(sa),
@@ -191,7 +193,7 @@ def _prepare(cell, case, ctx, op, sa, sb):
 
 
 def check_case(cell, bundle, ctx):
-    if cell["mode"] == "np":
+    if cell["mode"] in ("np", "ak"):
         return _check_numpy(cell, bundle, ctx)
     for sub in bundle:
         ctx.evaluation()
@@ -253,7 +255,8 @@ def _check_numpy(cell, bundle, ctx):
     da, db = cell["da"], cell["db"]
     sa = opcheck.parse_system(cell["sa"])
     sb = opcheck.parse_system(cell["sb"]) if cell["sb"] else None
-    backend = "numpy-f64"
+    is_ak = cell["mode"] == "ak"
+    backend = "awkward-f64" if is_ak else "numpy-f64"
     subs, preps = [], []
     for sub in bundle:
         ctx.evaluation()
@@ -265,12 +268,13 @@ def _check_numpy(cell, bundle, ctx):
     if not subs:
         return
     rows_a = [tuple(float(x) for x in R.from_cartesian(sa, p[0])) for p in preps]
-    va = build.np_array(sa, rows_a, op.momentum)
+    mk = (lambda s_, r_, m_: build.ak_flat(s_, r_, m_)) if is_ak else (lambda s_, r_, m_: build.np_array(s_, r_, m_))
+    va = mk(sa, rows_a, op.momentum)
     vb = None
     rows_b = None
     if db:
         rows_b = [tuple(float(x) for x in R.from_cartesian(sb, p[1])) for p in preps]
-        vb = build.np_array(sb, rows_b, False)
+        vb = mk(sb, rows_b, False)
     sc = _np_scalar_arrays(op, subs)
     try:
         r = opcheck.call(op, va, vb, sc)
@@ -281,9 +285,11 @@ def _check_numpy(cell, bundle, ctx):
     n = len(subs)
     if op.result == "vec":
         try:
-            sysr, rows = build.np_rows(r)
+            from vcheck import lattice
+
+            sysr, rows = lattice.read_vector_rows(r)
         except Exception as e:  # noqa: BLE001
-            ctx.fail("result_type", f"{op.name}: NumPy result is not a readable vector array: {type(r).__name__} {e!r}",
+            ctx.fail("result_type", f"{op.name}: array result is not a readable vector array: {type(r).__name__} {e!r}",
                      op=op.name, variant=_variant(cell), backend=backend)
             return
         if len(rows) != n:
@@ -291,7 +297,7 @@ def _check_numpy(cell, bundle, ctx):
                      variant=_variant(cell), backend=backend)
             return
     else:
-        arr = numpy.asarray(r).reshape(-1)
+        arr = numpy.asarray(build.flat_values(r))
         if arr.shape[0] != n:
             ctx.fail("shape", f"{op.name}: NumPy result shape {numpy.shape(r)} for {n} operands", op=op.name,
                      variant=_variant(cell), backend=backend)
